@@ -245,6 +245,41 @@ func (m *monitor) Block(c *stk.BlockCtx) *stk.Violation {
 			}
 		}
 	}
+	// scheduled no earlier than the maturity: whatever this block added to the pending list (its successful unstakes, the
+	// postponed unstakes of a verdict) sits at a height >= this height + the maturity in force (the smallest candidate when a
+	// change of the option falls into this block). A too-early entry is funds that will unlock before their maturity — for
+	// main-net sized maturities that is never reached inside a history, the schedule itself is the observable.
+	if c.H > 1 && minMat >= 1 {
+		sum := func(es []stk.MatureEntry) map[string]*big.Int {
+			o := map[string]*big.Int{}
+			for _, e := range es {
+				add(o, e.Deleg, e.Amount)
+			}
+			return o
+		}
+		var hs []int64
+		for hh := range c.Cur.Mature {
+			if hh > c.H && hh < c.H+minMat {
+				hs = append(hs, hh)
+			}
+		}
+		sort.Slice(hs, func(i, j int) bool { return hs[i] < hs[j] })
+		for _, hh := range hs {
+			cur, prev := sum(c.Cur.Mature[hh]), sum(c.Prev.Mature[hh])
+			var ds []string
+			for d := range cur {
+				ds = append(ds, d)
+			}
+			sort.Strings(ds)
+			for _, d := range ds {
+				if cur[d].Cmp(get(prev, d)) > 0 {
+					return stk.Violate("maturity", "scheduled-before-maturity", "height %d: the pending list entry of %s for height %d grew from %s to %s in this block, but the maturity in force is %d blocks: nothing unstaked now may unlock before height %d",
+						c.H, d, hh, get(prev, d), cur[d], minMat, c.H+minMat)
+				}
+			}
+			m.feats["schedule-checked"]++
+		}
+	}
 	// penalties: reductions of locked amounts in a verdict block that transactions do not explain
 	for val := range c.Cur.Frozen {
 		if !verdictAt(c, val) {
